@@ -19,6 +19,10 @@ pub struct SourceS {
     pub has_sudo: bool,
     pub has_reply: bool,
     pub has_migrate: bool,
+    /// registered through `ContractWrapper::new_with_empty(..)` with only the entry points it has attached
+    /// (`contract::wrapped`; tag must be one of `wrapped::TAGS`); not part of the model: the wrapper is transparent
+    #[serde(default, skip_serializing_if = "std::ops::Not::not")]
+    pub wrapped: bool,
 }
 
 #[derive(Serialize, Deserialize, Clone, Debug, PartialEq)]
@@ -63,14 +67,13 @@ pub fn default_creator() -> String {
     user("creator")
 }
 
-fn scripted(src: &SourceS) -> Box<Scripted> {
-    Box::new(Scripted {
-        tag: src.tag,
-        has_sudo: src.has_sudo,
-        has_reply: src.has_reply,
-        has_migrate: src.has_migrate,
-        checksum: src.checksum.as_ref().map(|b| Checksum::from(<[u8; 32]>::try_from(b.as_slice()).unwrap())),
-    })
+fn scripted(src: &SourceS) -> Box<dyn cw_multi_test::Contract<CMsg, cosmwasm_std::Empty>> {
+    let checksum = src.checksum.as_ref().map(|b| Checksum::from(<[u8; 32]>::try_from(b.as_slice()).unwrap()));
+    if src.wrapped {
+        wrapped::contract(src.tag, src.has_sudo, src.has_reply, src.has_migrate, checksum)
+    } else {
+        Box::new(Scripted { tag: src.tag, has_sudo: src.has_sudo, has_reply: src.has_reply, has_migrate: src.has_migrate, checksum })
+    }
 }
 
 /// a live App on which a history is being run (the generators build histories online so that they
@@ -490,8 +493,13 @@ pub fn block0() -> BlockS {
     BlockS { height: 12345, time_ns: 1_571_797_419_879_305_533, chain_id: "cosmos-testnet-14002".into() }
 }
 
+/// a code of the ContractWrapper flavour: entry points it lacks are not attached to the wrapper
+pub fn wrapped_src(tag: u64, has_sudo: bool, has_reply: bool, has_migrate: bool) -> SourceS {
+    SourceS { tag, checksum: None, has_sudo, has_reply, has_migrate, wrapped: true }
+}
+
 pub fn full_src(tag: u64) -> SourceS {
-    SourceS { tag, checksum: None, has_sudo: true, has_reply: true, has_migrate: true }
+    SourceS { tag, checksum: None, has_sudo: true, has_reply: true, has_migrate: true, wrapped: false }
 }
 
 pub struct Nodes(pub u64);
